@@ -17,3 +17,11 @@ CLAIMED["C09"] = (
     "Trusted: the assumed models of `cryptography`/`crcmod` calls in vf/extmodels.py (which exception for which argument size; results as "
     "uninterpreted functions with length laws and D(E(x)) = x), A-enc, A-smt.",
     "DESIGN.md 7 C09")
+CLAIMED["C16"] = (
+    "BinaryImage.__len__/export/validate/add_image/append_image are proved against the abstract view of the property (reported length; "
+    "byte k = last child covering k, else binary, else fill pattern; error iff a child sticks out / siblings overlap / negative offset) "
+    "by modular induction over tree depth: children are abstract images known only through these same contracts (ghost length / bytes / "
+    "validity), so depth is unbounded. Width is instantiated for 0..3 children per node (loops unrolled completely per width); wider nodes, "
+    "and BIN/HEX/S-record save/load (bincopy), are bounded checks only. One recorded known finding (empty child inside a sibling).",
+    "Trusted: A-enc, A-smt; align/align_block/BinaryPattern.get_block through their own verified contracts (C20). 'rand' pattern excluded.",
+    "DESIGN.md 7 C16")
